@@ -151,11 +151,11 @@ func run(c *Case) *vkit.Outcome {
 			closed = true
 		}
 		switch p.Kind {
-		case "ok", "reject", "timeout", "slowok", "dynok", "dynreject":
+		case "ok", "reject", "timeout", "slowok", "lostack", "dynok", "dynreject":
 			appendNo++
 			if p.Kind == "reject" || p.Kind == "dynreject" {
 				plan[appendNo] = "reject"
-			} else if p.Kind == "timeout" || p.Kind == "slowok" {
+			} else if p.Kind == "timeout" || p.Kind == "slowok" || p.Kind == "lostack" {
 				plan[appendNo] = p.Kind
 			}
 		}
@@ -193,6 +193,9 @@ func run(c *Case) *vkit.Outcome {
 			return storekit.Action{Err: storekit.ErrInjected}
 		case "timeout":
 			return storekit.Action{Block: true}
+		case "lostack":
+			// the record is written, the acknowledgement is lost
+			return storekit.Action{ErrAfter: storekit.ErrInjected}
 		case "slowok":
 			// outlasts the 2 ms persistence timeout without looking at the
 			// context; what happens then is up to the inner store
@@ -270,9 +273,10 @@ func run(c *Case) *vkit.Outcome {
 	}
 
 	type exp struct {
-		kind   string
-		failed bool
-		typ    reflect.Type
+		kind    string
+		failed  bool
+		typ     reflect.Type
+		present bool // failed, yet written: the store lost its acknowledgement
 	}
 	expect := map[int]exp{}
 	var okOrder []int
@@ -291,35 +295,46 @@ func run(c *Case) *vkit.Outcome {
 			switch p.Kind {
 			case "badchan":
 				e := BadChan{ID: id, C: make(chan int)}
-				expect[id] = exp{p.Kind, true, reflect.TypeOf(e)}
+				expect[id] = exp{p.Kind, true, reflect.TypeOf(e), false}
 				publish(bus, c.UseCtx, e)
 			case "badfunc":
 				e := BadFunc{ID: id, F: func() {}}
-				expect[id] = exp{p.Kind, true, reflect.TypeOf(e)}
+				expect[id] = exp{p.Kind, true, reflect.TypeOf(e), false}
 				publish(bus, c.UseCtx, e)
 			case "badnan":
 				e := BadNaN{ID: id, F: math.NaN()}
-				expect[id] = exp{p.Kind, true, reflect.TypeOf(e)}
+				expect[id] = exp{p.Kind, true, reflect.TypeOf(e), false}
 				publish(bus, c.UseCtx, e)
 			case "badmarshal":
 				e := BadM{ID: id}
-				expect[id] = exp{"badchan", true, reflect.TypeOf(e)}
+				expect[id] = exp{"badchan", true, reflect.TypeOf(e), false}
 				publish(bus, c.UseCtx, e)
 			case "dynok", "dynreject":
 				e := Dyn{ID: id, Payload: map[string]any{"k": []any{1, "two"}}, M: map[string]any{"x": id}}
 				failed := p.Kind == "dynreject" || sqlClosed
-				expect[id] = exp{map[string]string{"dynok": "ok", "dynreject": "reject"}[p.Kind], failed, reflect.TypeOf(e)}
+				expect[id] = exp{map[string]string{"dynok": "ok", "dynreject": "reject"}[p.Kind], failed, reflect.TypeOf(e), false}
 				if !failed {
 					okOrder = append(okOrder, id)
 				}
 				publish(bus, c.UseCtx, e)
 			case "dynbad":
 				e := Dyn{ID: id, Payload: make(chan int)}
-				expect[id] = exp{"badchan", true, reflect.TypeOf(e)}
+				expect[id] = exp{"badchan", true, reflect.TypeOf(e), false}
 				publish(bus, c.UseCtx, e)
 			case "dynbadmap":
 				e := Dyn{ID: id, Payload: "fine", M: map[string]any{"f": func() {}}}
-				expect[id] = exp{"badfunc", true, reflect.TypeOf(e)}
+				expect[id] = exp{"badfunc", true, reflect.TypeOf(e), false}
+				publish(bus, c.UseCtx, e)
+			case "lostack":
+				// the store wrote the record and then reported an error: one
+				// report, one Append call, and the record (the store's doing)
+				// is in the log exactly once
+				e := Good{ID: id, S: p.Kind}
+				present := !sqlClosed
+				expect[id] = exp{"lostack", true, reflect.TypeOf(e), present}
+				if present {
+					okOrder = append(okOrder, id)
+				}
 				publish(bus, c.UseCtx, e)
 			case "slowok":
 				// the memory store ignores the expired context and appends:
@@ -337,14 +352,14 @@ func run(c *Case) *vkit.Outcome {
 				if failed {
 					kind = "timeout"
 				}
-				expect[id] = exp{kind, failed, reflect.TypeOf(e)}
+				expect[id] = exp{kind, failed, reflect.TypeOf(e), false}
 				if !failed {
 					okOrder = append(okOrder, id)
 				}
 			default:
 				e := Good{ID: id, S: p.Kind}
 				failed := p.Kind != "ok" || sqlClosed
-				expect[id] = exp{p.Kind, failed, reflect.TypeOf(e)}
+				expect[id] = exp{p.Kind, failed, reflect.TypeOf(e), false}
 				if !failed {
 					okOrder = append(okOrder, id)
 				}
@@ -375,7 +390,7 @@ func run(c *Case) *vkit.Outcome {
 		// record visible from inside the handler iff persisted
 		if !sqlClosed || id < c.CloseAt {
 			want := 1
-			if e.failed {
+			if e.failed && !e.present {
 				want = 0
 			}
 			if got := inStore[id]; got != want && got != -1 {
@@ -448,7 +463,7 @@ func run(c *Case) *vkit.Outcome {
 	// exactly one Append attempt per encodable publish (no retry)
 	encodable := 0
 	for _, p := range c.Pubs {
-		if p.Kind == "ok" || p.Kind == "reject" || p.Kind == "timeout" || p.Kind == "slowok" || p.Kind == "dynok" || p.Kind == "dynreject" {
+		if p.Kind == "ok" || p.Kind == "reject" || p.Kind == "timeout" || p.Kind == "slowok" || p.Kind == "lostack" || p.Kind == "dynok" || p.Kind == "dynreject" {
 			encodable++
 		}
 	}
